@@ -59,10 +59,26 @@ pub fn run_supervised(
     to: usize,
     gate_fs: bool,
     cwd: Option<&Path>,
+    decide: impl FnMut(&Gate, usize) -> Decision,
+) -> Result<SupRun, String> {
+    run_supervised_opt(paths, from, to, gate_fs, cwd, false, decide)
+}
+
+/// `settle`: the driver waits for background work of dropped writers before it exits.
+pub fn run_supervised_opt(
+    paths: &Paths,
+    from: usize,
+    to: usize,
+    gate_fs: bool,
+    cwd: Option<&Path>,
+    settle: bool,
     mut decide: impl FnMut(&Gate, usize) -> Decision,
 ) -> Result<SupRun, String> {
     let _ = std::fs::remove_file(&paths.out_file);
-    let cmd = driver_cmd(&paths.cache, &paths.scratch, &paths.prog_file, from, to, &paths.out_file);
+    let mut cmd = driver_cmd(&paths.cache, &paths.scratch, &paths.prog_file, from, to, &paths.out_file);
+    if settle {
+        cmd.push("--settle".into());
+    }
     let mut sup = Sup::spawn(gate_fs, 120, &[cmd], cwd).map_err(|e| format!("INFRA: cannot start ptsup: {e}"))?;
     let mut gates: Vec<GateRec> = Vec::new();
     let mut status = String::new();
